@@ -6,9 +6,14 @@ import (
 	"strings"
 	"testing"
 
+	"github.com/trustbloc/sidetree-core-go/pkg/api/operation"
+
 	"verifharness/kit/asm"
 	"verifharness/kit/ev"
 	"verifharness/kit/keys"
+	"verifharness/kit/refjcs"
+	"verifharness/kit/res"
+	"verifharness/kit/wire"
 )
 
 const chkTwins = "case-variant-twin-members"
@@ -87,4 +92,128 @@ func TestCaseVariantTwins(t *testing.T) {
 		}
 	}
 	ev.Exhaustive(chkTwins)
+}
+
+// ---- twin members inside a revealed key ----------------------------------------------------------------------
+
+const chkKeyTwins = "twin-members-inside-a-revealed-key"
+
+// KeyTwinCase: a DID whose update commitment is derived from the reveal value Reveal; two update requests that reveal
+// "the same" JWK - members x, y of one key and X, Y of another, in the two orders - each signed by the key that a
+// case-insensitive reader ends up with.
+type KeyTwinCase struct {
+	Code    uint64    `json:"code"`
+	KeyType keys.Type `json:"keyType"`
+	Reveal  string    `json:"reveal"` // transmitted | model-first | model-second: which hash the DID commits to
+}
+
+func init() { ev.RegisterReplay(chkKeyTwins, replayKeyTwins) }
+
+func evalKeyTwins(c *KeyTwinCase) (string, string) {
+	k1, k2 := keys.Get(c.KeyType, "c08kt", 1), keys.Get(c.KeyType, "c08kt", 2)
+	j1, j2 := k1.JWKMap(), k2.JWKMap()
+	member := func(name string, v interface{}) string { return fmt.Sprintf("%q:%q", name, v) }
+	head := member("crv", j1["crv"]) + "," + member("kty", j1["kty"])
+	lower := member("x", j1["x"]) + "," + member("y", j1["y"])
+	upper := member("X", j2["x"]) + "," + member("Y", j2["y"])
+	textA := "{" + head + "," + lower + "," + upper + "}" // a reader that folds case ends up with the second key
+	textB := "{" + head + "," + upper + "," + lower + "}" // ... with the first key
+	var reveal string
+	switch c.Reveal {
+	case "transmitted":
+		reveal = asm.Multihash(c.Code, refjcsCanon([]byte(textA)))
+	case "model-first":
+		reveal = asm.Reveal(k1, c.Code)
+	default:
+		reveal = asm.Reveal(k2, c.Code)
+	}
+	commitment, ok := asm.CommitFromReveal(reveal)
+	if !ok {
+		return "harness", "no commitment for " + reveal
+	}
+	rk := keys.Get(c.KeyType, "c08kt", 0)
+	cr := &asm.Create{Code: c.Code, RecoveryCommit: asm.Commit(rk, c.Code), Delta: asm.Delta(commitment, []interface{}{map[string]interface{}{"action": "add-also-known-as", "uris": []interface{}{"https://a.example/created"}}})}
+	suffix := cr.Suffix()
+	update := func(keyText string, signer *keys.Key, tag string) []byte {
+		delta := asm.Delta(asm.Commit(keys.Get(c.KeyType, "c08kt", 9), c.Code), []interface{}{map[string]interface{}{"action": "add-also-known-as", "uris": []interface{}{"https://a.example/" + tag}}})
+		payload := []byte(`{"deltaHash":"` + asm.HashModel(c.Code, delta) + `","updateKey":` + keyText + `}`)
+		req := map[string]interface{}{"type": "update", "didSuffix": suffix, "revealValue": reveal, "signedData": asm.SignCompact(signer, nil, payload), "delta": delta}
+		return asm.BytesOf(req)
+	}
+	applied := func(req []byte, tag string) (bool, string) {
+		v := parserFor(uint(c.Code))
+		ops := []*operation.AnchoredOperation{
+			{Type: operation.TypeCreate, UniqueSuffix: suffix, OperationRequest: cr.Bytes(), TransactionTime: 10, TransactionNumber: 0, CanonicalReference: "ref-c"},
+			{Type: operation.TypeUpdate, UniqueSuffix: suffix, OperationRequest: req, TransactionTime: 11, TransactionNumber: 1, CanonicalReference: "ref-u"},
+		}
+		got := res.Resolve(wire.NewClient(v), suffix, ops, nil)
+		if got.Panic != "" || got.Err != "" {
+			return false, got.Panic + got.Err
+		}
+		aka, _ := got.Doc["alsoKnownAs"].([]interface{})
+		for _, u := range aka {
+			if u == "https://a.example/"+tag {
+				return true, ""
+			}
+		}
+		return false, ""
+	}
+	okSecond, e1 := applied(update(textA, k2, "second"), "second")
+	okFirst, e2 := applied(update(textB, k1, "first"), "first")
+	if e1 != "" || e2 != "" {
+		return "harness", "resolution failed: " + e1 + " / " + e2
+	}
+	if okFirst && okSecond {
+		return "C08/commitment-opened-by-two-keys", fmt.Sprintf("the update commitment %s (reveal value %s = hash of %s) is opened by two different keys: an update revealing %s signed by key 2 is applied, and so is one revealing %s signed by key 1", commitment, reveal, c.Reveal, textA, textB)
+	}
+	return "", ""
+}
+
+func refjcsCanon(text []byte) []byte {
+	v, err := refjcs.Parse(text)
+	if err != nil {
+		panic(err.Msg)
+	}
+	out, cerr := refjcs.Canonical(v)
+	if cerr != nil {
+		panic(cerr)
+	}
+	return out
+}
+
+func replayKeyTwins(raw json.RawMessage) (string, string) {
+	var c KeyTwinCase
+	if err := json.Unmarshal(raw, &c); err != nil {
+		return "bad-replay", err.Error()
+	}
+	return evalKeyTwins(&c)
+}
+
+// TestTwinMembersInsideARevealedKey: a commitment binds one key. A revealed JWK that carries the coordinates of two
+// keys under names differing in case only is one JSON value in two member orders (one canonical form, one hash), while
+// a reader that folds case sees the first key in one order and the second in the other.
+func TestTwinMembersInsideARevealedKey(t *testing.T) {
+	ev.Rule(chkKeyTwins, "deterministic: a DID whose update commitment belongs to the reveal value of {crv, kty, x, y of key 1, X, Y of key 2} - taken as the hash of that JSON value, of key 1's model or of key 2's model - and two anchored updates revealing that JWK in the two member orders, each signed by the key a case-folding reader ends up with; 4 EC key types x 2 hash algorithms x 3 reveal values; oracle: one commitment is not opened by two different keys (at most one of the two updates takes effect); every case non-trivial")
+	item := 0
+	for _, kt := range keys.AllTypes {
+		if kt == keys.Ed25519 {
+			continue
+		}
+		for _, code := range []uint64{asm.SHA256, asm.SHA512} {
+			for _, rv := range []string{"transmitted", "model-first", "model-second"} {
+				item++
+				if !ev.Mine(item) {
+					continue
+				}
+				c := &KeyTwinCase{Code: code, KeyType: kt, Reveal: rv}
+				kind, msg := evalKeyTwins(c)
+				ev.Record(chkKeyTwins, true, ev.Hash(int(kt), code, rv), "reveal:"+rv)
+				ev.SampleFn(chkKeyTwins, func() interface{} { return c })
+				if kind != "" {
+					ev.Fail(t, chkKeyTwins, kind, kind, c, "%s", msg)
+				}
+			}
+		}
+	}
+	ev.Exhaustive(chkKeyTwins)
 }
